@@ -1,5 +1,6 @@
 import FsutilModel.Model.CopyB
 import FsutilModel.Lemmas.C16
+import FsutilModel.Lemmas.C16Walk
 /-! # C16 — include/exclude selection: nothing else is written -/
 namespace Fsm.C16
 open C
@@ -60,5 +61,47 @@ example (cfg : F.Cfg) (e : StatE) (h : P.parentPrefixes e.path = []) :
   rw [h]
   unfold C16L.stackFor
   split <;> simp [F.callback.pop, C16L.chainInfo_nil]
+
+/-! ## The whole walk
+
+`C16W.Canon l`: the listing is canonical with respect to the walk's own ancestor test `x/ ⊑ y` — whatever tests as an
+ancestor is a directory listed earlier, the parent prefixes of an entry are those of its nearest ancestor plus that
+ancestor, the order is depth first, no entry is repeated. `C16W.canonB` is its executable form; the driver evaluates it
+on every listing a real walk produced in the correspondence runs (suite `filter`), so the premise is checked on the code's
+own output, not assumed. -/
+
+/-- **The set of copied paths equals the set the filtered walk reports**: for every canonical listing and every pattern
+lists (at least one non-empty; pruning off, no map function) the filtered walk reports exactly the entries the copier
+selects and the directories that have a selected entry below them (the ancestors the copier creates on demand). -/
+theorem filtered_walk_reports_copier_selection (cfg : F.Cfg) (hp : cfg.prune = false) (hm : cfg.map = [])
+    (hf : (!cfg.inc.isEmpty || !cfg.exc.isEmpty) = true) (l : List StatE) (hC : C16W.Canon l)
+    (a : C.Args) (hai : a.inc = cfg.inc) (hae : a.exc = cfg.exc) (hne : ∀ e ∈ l, e.path ≠ []) :
+    ∀ e, e ∈ F.filterWalk true cfg l ↔
+      e ∈ l ∧ (C.included a e.path = true ∨
+        (e.isDir = true ∧ ∃ d ∈ l, C16W.anc e.path d.path = true ∧ C.included a d.path = true)) := by
+  intro e
+  rw [C16W.filterWalk_mem cfg hp hm hf l hC e]
+  constructor
+  · intro ⟨he, hk⟩
+    refine ⟨he, ?_⟩
+    simp only [C16W.keepIn, Bool.or_eq_true, Bool.and_eq_true, List.any_eq_true] at hk
+    rcases hk with h | ⟨hd, d, hdl, hda, hds⟩
+    · left; rw [C16L.included_eq_selected a e.path (hne e he), hai, hae]; exact h
+    · right; exact ⟨hd, d, hdl, hda, by rw [C16L.included_eq_selected a d.path (hne d hdl), hai, hae]; exact hds⟩
+  · intro ⟨he, hk⟩
+    refine ⟨he, ?_⟩
+    simp only [C16W.keepIn, Bool.or_eq_true, Bool.and_eq_true, List.any_eq_true]
+    rcases hk with h | ⟨hd, d, hdl, hda, hds⟩
+    · left; rw [C16L.included_eq_selected a e.path (hne e he), hai, hae] at h; exact h
+    · right; exact ⟨hd, d, hdl, hda, by rw [C16L.included_eq_selected a d.path (hne d hdl), hai, hae] at hds; exact hds⟩
+
+/-- the executable canonicity check is sound -/
+theorem canonical_check_sound (l : List StatE) (h : C16W.canonB l = true) : C16W.Canon l :=
+  C16W.canonB_sound l h
+
+/-- without pattern lists the walk reports the listing itself -/
+theorem walk_without_patterns (cfg : F.Cfg) (hm : cfg.map = []) (hi : cfg.inc = []) (hx : cfg.exc = []) (l : List StatE) :
+    F.filterWalk true cfg l = l := by
+  simpa [F.filterWalk] using C16W.walkLoop_nopatterns cfg hm hi hx l []
 
 end Fsm.C16
